@@ -120,7 +120,10 @@ type ExifRec struct {
 	Exp             *Expect
 	HasExif, HasGPS bool
 	Note            string // description of the maker note, if one was added
-	Make            string
+	// NoteTags: out-of-line entries inside the maker note (they occupy the reader's pending table
+	// while the note is read)
+	NoteTags int
+	Make     string
 }
 
 type RecOpts struct {
@@ -128,6 +131,9 @@ type RecOpts struct {
 	Slotty bool
 	// Density of fields: probability numerator out of 100 that a given field is present.
 	Density int
+	// NikonBigNote: Make is Nikon, the Exif directory carries a type-3 maker note with 82 entries,
+	// and a GPS position is present.
+	NikonBigNote bool
 	// LongStrings allows strings up to 1000 bytes, a few up to 4090.
 	LongStrings bool
 }
@@ -277,10 +283,13 @@ func GenExifRec(r *core.Rng, o RecOpts) *ExifRec {
 		}
 		u(f.key, uint64(first))
 	}
-	if has() {
+	if has() || o.NikonBigNote {
 		mk := randText(r, o)
 		if r.Chance(3, 5) {
 			mk = makeKeys[r.Intn(len(makeKeys))]
+		}
+		if o.NikonBigNote {
+			mk = "NIKON CORPORATION"
 		}
 		rec.Make = mk
 		rec.IFD0.Add(0x010f, asciiVal(r, mk))
@@ -382,7 +391,7 @@ func GenExifRec(r *core.Rng, o RecOpts) *ExifRec {
 
 	// ---- Exif IFD
 	x := rec.Exif
-	if r.Chance(1, 6) {
+	if r.Chance(1, 6) || (makeEnum[rec.Make] == 30 && r.Chance(2, 3)) || o.NikonBigNote {
 		// a maker note: opaque to a reader that does not know the maker's format. For the two makes
 		// whose notes the library follows it is kept in that maker's terms: an empty directory
 		// (Canon), a note too short to hold Nikon's 18-byte header (Nikon).
@@ -393,6 +402,44 @@ func GenExifRec(r *core.Rng, o RecOpts) *ExifRec {
 			note = []byte{0, 0, 0, 0, 0, 0}
 		case 30: // Nikon
 			note = r.Bytes(r.Pick(0, 1, 4, 5, 8, 12, 17, 18))
+			if r.Bool() || o.NikonBigNote {
+				// a type-3 note: "Nikon\0" + version, then a TIFF structure of its own (its own byte
+				// order, offsets counted from its own header) with n entries whose values follow it
+				n := r.Pick(1, 5, 30, 70, 70)
+				if o.NikonBigNote {
+					n = 82
+				}
+				le := r.Bool()
+				p16 := func(b []byte, v int) []byte {
+					if le {
+						return append(b, byte(v), byte(v>>8))
+					}
+					return append(b, byte(v>>8), byte(v))
+				}
+				p32 := func(b []byte, v int) []byte {
+					if le {
+						return append(b, byte(v), byte(v>>8), byte(v>>16), byte(v>>24))
+					}
+					return append(b, byte(v>>24), byte(v>>16), byte(v>>8), byte(v))
+				}
+				t := []byte("MM\x00*")
+				if le {
+					t = []byte("II*\x00")
+				}
+				t = p32(t, 8)
+				t = p16(t, n)
+				val := 8 + 2 + 12*n + 4
+				for i := 0; i < n; i++ {
+					t = p32(p32(p16(p16(t, 1+2*i), 4), 2), val+8*i)
+				}
+				t = p32(t, 0)
+				t = append(t, r.Bytes(8*n)...)
+				note = append([]byte("Nikon\x00\x02\x10\x00\x00"), t...)
+				rec.NoteTags = n
+				// (the library labels a file with a Nikon type-3 note as NEF whatever its container;
+				// the label is not among the values the properties speak about)
+				e.Any["Exif.ImageType"] = true
+			}
 		default:
 			note = r.Bytes(r.Pick(0, 3, 4, 5, 18, 19, 60, 300))
 		}
@@ -624,6 +671,9 @@ func GenExifRec(r *core.Rng, o RecOpts) *ExifRec {
 	}
 
 	// ---- GPS IFD
+	if o.NikonBigNote {
+		o.Density = 100 // a complete GPS directory behind the note
+	}
 	g := rec.GPS
 	coord := func(maxDeg int) ([][2]uint32, float64) {
 		den := func() uint32 { return uint32(r.Pick(1, 1, 10, 100, 1000, 1000000)) }
